@@ -61,12 +61,9 @@ ASSUMPTIONS = ["coefficients are real; bits are 0/1; the eigenvalue of Z on bit 
                "complex with zero imaginary part, a Fraction, or a numpy integer / float / complex scalar: numpy float32 / complex64 "
                "coefficients make the library compute in float32 (numpy keeps the narrower type against Python floats), so they are "
                "generated with dyadic values and 2^k <= 64 shots, where every intermediate result is exactly representable",
-               "EXCLUDED (defect of the unchanged library, reported): get_expectation_value_from_frequencies with frequencies given as "
+               "KNOWN FINDING frequencies-narrow-numpy-int-total-wraps: get_expectation_value_from_frequencies with frequencies given as "
                "numpy integers of a width their TOTAL does not fit (sum() of numpy scalars wraps: {'01': np.uint8(200), '11': np.uint8(100)} "
-               "gives 2.27); typed frequencies are generated with totals inside the type",
-               "EXCLUDED (defect of the unchanged library, reported): get_parities_from_measurements on shots whose bits are UNSIGNED numpy "
-               "integers (uint8 / uint64, rows of a uint8 array): the pair tallies wrap around (np.abs(parity1 - parity2) in uint64); "
-               "unsigned bits are generated for every other API",
+               "gives 2.27); one corpus case holds it, generated typed frequencies have totals inside the type",
                "theorems are over an arbitrary field of characteristic 0; the driver evaluates the same definitions at Rat"]
 TOL = 1e-9
 REL = Fraction(1, 10 ** 12)     # rounding allowance relative to the natural scale of an entry (about 4500 ulp)
@@ -221,6 +218,11 @@ def corpus():
          "terms": [_t(Fraction(3, 2), z(0)), _t(127, z(0, 1)), _t(1, z(1)), _t(Fraction(1, 3), [])]},
         {"kind": "parities", "shots": ["011", "110", "111", "011"], "bit_ty": "np.bool_", "terms": [_t(1, z(0, 1, 2)), _t(1, z(2))]},
         {"kind": "add_counts", "shots": ["01"], "counts": [["01", 2], ["10", 255], ["11", 0]], "counts_as": "np:uint8", "bit_ty": "bool"},
+        # pair tallies on unsigned bits (wrapped around before the repair 4a0b079 in /repo)
+        {"kind": "parities", "shots": ["11", "00", "11", "01"], "bit_ty": "uint8", "terms": [_t(1, z(0, 1)), _t(2, z(1))]},
+        {"kind": "parities", "shots": ["11", "00", "11", "01"], "bit_ty": "arr:uint8", "terms": [_t(1, z(0, 1)), _t(2, z(1))]},
+        # KNOWN FINDING (not generated otherwise): uint8 frequencies whose total leaves the type
+        {"kind": "freq", "marked": [0], "freq": [["01", 200], ["11", 100]], "freq_as": "np:uint8!", "finding_class": "frequencies-narrow-numpy-int-total-wraps"},
         {"kind": "freq", "marked": [1, 0], "freq": [["01", 100], ["11", 27], ["10", 0]], "freq_as": "np:int8", "marked_as": "nptuple"},
         {"kind": "parity_vec", "rows": ["111", "110", "000"], "marked": [0, 1, 2], "dtype": "bool"},
         # ---- one Measurements object asked for the same operator at three magnitudes
@@ -756,9 +758,9 @@ def _pow2_shots(rng, w, kmax=6):
     return _shots(rng, w, 2 ** rng.randrange(0, kmax + 1))
 
 
-# bits as UNSIGNED numpy integers are excluded from get_parities_from_measurements: on the unchanged library the pair tallies
-# wrap around (np.abs(parity1 - parity2) on uint64: 0 - 1 = 2^64 - 1) - reported as a defect of the library
-UNSIGNED_BITS = ("uint8", "uint64", "arr:uint8")
+# bits as UNSIGNED numpy integers were excluded from get_parities_from_measurements while the library's pair tallies wrapped around
+# (np.abs(parity1 - parity2) on uint64: 0 - 1 = 2^64 - 1); repaired in /repo (4a0b079), so they are generated like every other type
+UNSIGNED_BITS = ()
 
 
 def _types(rng, big):
@@ -1464,6 +1466,8 @@ def _counts_form(pairs, form, total_in_type=False):
         return {kk: (bool(v) if v in (0, 1) else v) for kk, v in pairs}
     if form and form.startswith("np:"):
         np = _mods()[0]
+        if form.endswith("!"):      # (corpus only) the type is forced although the TOTAL leaves it: the known finding
+            form, total_in_type = form[:-1], False
         info = np.iinfo(form[3:])
         t = getattr(np, form[3:])
         if total_in_type and not (sum(max(v, 0) for _, v in pairs) <= info.max and sum(min(v, 0) for _, v in pairs) >= info.min):
